@@ -56,7 +56,7 @@ def gen_cases(rng, tier):
     cases = []
     w_in = (0.88, 0.05, 0.05, 0.02)
     w_out = (0.5, 0.2, 0.2, 0.1)
-    for _ in range(130 if tier == "quick" else 2500):
+    for _ in range(110 if tier == "quick" else 2500):
         cfg = G.gen_cfg(rng)
         if not cfg["out"] and rng.random() < 0.85:
             cfg["out"] = [0, 1] if G.fits(cfg["ver"], cfg["dialog"], len(cfg["in"]), 2) else [0]
@@ -65,7 +65,21 @@ def gen_cases(rng, tier):
         cfg["turns"] = [G.gen_turn(rng, cfg, k + 1, w_in, w_out, p_retr=0.04) for k in range(rng.choice([2, 3, 3, 4, 5]))]
         if rng.random() < 0.2 and G.fits(cfg["ver"], cfg["dialog"], len(cfg["in"]), len(cfg["out"]), sc=True):
             G.add_selfcheck(rng, cfg)
+        elif cfg["ver"] == "1.0" and rng.random() < 0.25:
+            G.purify(rng, cfg, "out")  # the last output rail becomes a pure-Colang rail (reads the flows' view of $bot_message)
+        if rng.random() < 0.4:
+            G.collapse_texts(rng, cfg)  # LLM texts / rewrites that repeat earlier ones
+        if rng.random() < 0.2:
+            G.random_opts(rng, cfg)  # 1.0: random per-call generation options
         cases.append(cfg)
+    # texts that REPEAT around a turn hidden by a fault after `$bot_message` was set (action rails and pure-Colang rails,
+    # history carried by messages+cache and by state), see pipeline_cases.REPEAT_PATTERNS
+    cases.extend(G.repeat_cases(rng, tier, "out"))
+    # ... and the bot message that repeats is the predefined refusal of an input rail (no LLM text in that turn at all)
+    cases.extend(G.repeat_cases(rng, tier, "in", patterns=G.REFUSAL_REPEAT[:2] if tier == "quick" else G.REFUSAL_REPEAT))
+    # Colang 1.0 generation options per CALL (state API and messages): calls that switch the output rails off mixed with calls
+    # that pass no options - the bot message of every call whose options enable the output rails passes all of them
+    cases.extend(G.options_cases(rng, tier, "out"))
     # every turn position blocked / rewritten / faulted once, all later turns clean
     shapes = OUT_SHAPES if tier == "thorough" else OUT_SHAPES[:3]
     for cfg in G.all_cfgs(shapes, carries=("messages", "state") if tier == "thorough" else ("messages",)):
@@ -97,7 +111,7 @@ def gen_cases(rng, tier):
 
 def turn_oracle(case, tc, to):
     steps = to["steps"]
-    cfg_out = G.eff_out(case)
+    cfg_out = G.eff_out(case, tc)  # the output rails enabled for THIS call (explicit options of the call, or the defaults)
     rep = to["reply"]
     text = G.reply_text(rep)
     # did the LLM produce a bot message in this turn?
@@ -107,6 +121,10 @@ def turn_oracle(case, tc, to):
     if not produced:
         if bot in text:
             return f"[unproduced-text] the reply contains the LLM text ({bot}) although no generation call was recorded"
+        # no LLM text was produced in this turn: whatever is returned is a predefined message (the refusal, the internal-error
+        # text) - in particular not the LLM text of an EARLIER turn (blocked, hidden or already answered there)
+        if rep["role"] == "assistant" and not rep["exc"] and text not in (G.REFUSAL, G.INTERNAL_ERROR, ""):
+            return f"[foreign-reply] no bot message was generated in this turn, yet the reply is {text[:80]!r} (neither the refusal nor the internal-error text)"
         return None
     last_gen = max(idx for idx, s in enumerate(steps) if s[0] == "llm" and s[1] in G.GEN_TASKS)
     calls = [s for idx, s in enumerate(steps) if s[0] == "rail" and s[1] == "out" and idx > last_gen]
@@ -123,14 +141,17 @@ def turn_oracle(case, tc, to):
             break
         if case["ver"] == "1.0" and G.is_rewrite(v):
             cur = v[1]
+    # "processed by all configured output rails": the message every output rail is processing in this turn is the LLM text of
+    # THIS turn (or what the previous rail of this turn rewrote it to) - evaluated on what each rail actually received
+    # (action rails: the context / parameters of their action; pure-Colang rails: the flow's own view)
+    for (rid, want), s in zip(chain, calls):
+        if s[2] == rid and s[3] != want:
+            return f"[out-text] output rail {rid} was shown {s[3]!r} instead of the text of this turn {want!r}"
     returned_llm_text = bot in text or any(G.sentinel(r) in text for r in rewrites)
     if returned_llm_text:
         # "processed by all configured output rails, in order, before it is returned"
         if ids != cfg_out:
             return f"[out-skipped] the reply carries the LLM text but the output rails that ran on it are {ids}, configured {cfg_out}"
-        for (rid, want), s in zip(chain, calls):
-            if s[3] != want:
-                return f"[out-text] output rail {rid} was shown {s[3]!r} instead of {want!r}"
         # "a rejected message never appears in the response"
         if blocked is not None:
             return f"[blocked-returned] output rail {blocked} blocked the message but the reply still carries it: {text[:80]!r}"
@@ -140,6 +161,11 @@ def turn_oracle(case, tc, to):
     else:
         if blocked is None and rep["role"] == "assistant" and not rep["exc"] and ids == cfg_out and text not in (G.REFUSAL, G.INTERNAL_ERROR):
             return f"[lost-text] all output rails accepted but the reply is {text[:80]!r}"
+    # the reply of turn k is the text that passed the rails in turn k, the refusal, the internal-error text (or a rail exception):
+    # in particular never a text of ANOTHER turn (an earlier LLM text / rewrite that was hidden, rejected or already answered)
+    if rep["role"] == "assistant" and not rep["exc"] and text not in (G.REFUSAL, G.INTERNAL_ERROR, ""):
+        if blocked is not None or text != cur:
+            return f"[foreign-reply] the reply {text[:80]!r} is neither the text that passed the output rails in this turn ({(cur if blocked is None else None)!r}) nor the refusal / internal-error text"
     if ids != cfg_out[:len(ids)]:
         return f"[out-order] output rails ran in the order {ids}, configured order is {cfg_out}"
     if blocked is not None and len(ids) >= 1 and ids == cfg_out[:len(ids)]:
